@@ -203,7 +203,7 @@ Section WithNum.
         if (vk s - hh s <? d)%nat then None else
         match map s_item (vM s) ++ vR s with
         | [] => None
-        | c0 :: _ as cands =>
+        | (c0 :: _) as cands =>
             (* data_[delete_slot] = data_[leftmost_cand_slot]; the leftmost slot becomes the gap *)
             let R' := tl (upd_nth d (fun _ => c0) cands) in
             Some (mkvo (vk s) (vn s) (vH s) [] 0 R' wc (vgad s) (vmarks s), c')
